@@ -196,9 +196,10 @@ def paths(ctx, L):
                 n += 1
                 # allowed only as the cache key of FileProcessor._process_file
                 ok = f is not None and f.fq == 'prophyc.file_processor:FileProcessor._process_file' and \
-                    isinstance(m.parent(node), ast.Assign) and unparse(m.parent(node).targets[0]) == 'abspath'
+                    isinstance(m.parent(node), ast.Assign) and isinstance(m.parent(node).targets[0], ast.Name)
                 if ok:
-                    uses = [x for x in f.walk() if isinstance(x, ast.Name) and x.id == 'abspath' and isinstance(x.ctx, ast.Load)]
+                    keyname = m.parent(node).targets[0].id
+                    uses = [x for x in f.walk() if isinstance(x, ast.Name) and x.id == keyname and isinstance(x.ctx, ast.Load)]
                     for u in uses:
                         p = m.parent(u)
                         key_only = (isinstance(p, ast.Subscript) and unparse(p.value) == 'self.files') or \
